@@ -30,7 +30,10 @@ TEMPLATES: Dict[str, rm.Svc] = {
     "S4": rm.Svc("_p._sub._a._tcp.local.", "s4._a._tcp.local.", "h4.local.", 83, b"", [V4A], []),
     "S5": rm.Svc("_A._tcp.local.", "S5._A._tcp.local.", "H5.Local.", 84, b"\x01y", [V4B], []),
     "S6": rm.Svc("_b._tcp.local.", "s6._b._tcp.local.", "h6.local.", 85, b"", [], []),
+    # described without a host name: the library uses the instance name as host name (NO_SERVER: make_info leaves server= out)
+    "S7": rm.Svc("_b._tcp.local.", "s7._b._tcp.local.", "s7._b._tcp.local.", 86, b"\x01z", [V4A], []),
 }
+NO_SERVER = {"s7._b._tcp.local."}
 
 
 def variant(base: rm.Svc, change: str) -> rm.Svc:
@@ -63,6 +66,7 @@ def events_for(tier: str) -> List[tuple]:
     # the application changes the object it unregistered earlier and registers it again (record memos filled by the
     # goodbyes must not survive into the new registration)
     ev += [("rereg", "S1", "port"), ("rereg", "S1", "ttl"), ("rereg", "S3", "text")]
+    ev += [("upd", "S7", "port", "new"), ("upd", "S7", "text", "same")]
     if tier != "quick":
         ev += [("rereg", "S2", "addr"), ("rereg", "S5", "port")]
         ev += [("upd", "S3", "ttl", "new"), ("upd", "S5", "port", "new"), ("upd", "S1", "server", "new"),
@@ -73,7 +77,8 @@ def events_for(tier: str) -> List[tuple]:
 def make_info(s: rm.Svc) -> Any:
     from zeroconf import ServiceInfo
 
-    return ServiceInfo(s.type, s.name, s.port, s.weight, s.priority, s.text, s.server, s.host_ttl, s.other_ttl,
+    server = None if (s.name in NO_SERVER and s.server == s.name) else s.server
+    return ServiceInfo(s.type, s.name, s.port, s.weight, s.priority, s.text, server, s.host_ttl, s.other_ttl,
                        addresses=s.v4 + s.v6)
 
 
@@ -159,7 +164,10 @@ class Replay:
                 mutate_info(info, desc)
             else:
                 info = make_info(desc)
-            w.run_coro(zc.async_update_service(info))
+            try:
+                w.run_coro(zc.async_update_service(info))
+            except Exception as e:  # noqa: BLE001 - updating a registered service with a valid description must work
+                self.errors.append(f"update of {n} ({change}, {how} object) raised {type(e).__name__}: {e}")
             self.model[n] = desc
             self.infos[n] = info
         w.settle()
